@@ -301,6 +301,12 @@ def fitness_sum(u: Unit):
         st.oblige("fitness.loop.simulates_the_updated_copy", (rp.t == FM.UPD(FM.PARAM, FM.PROC(k))) if isinstance(rp, VSym) else False, {"replay": FIT_REPLAY}, assume_after=False)
         st.oblige("fitness.loop.own_simulated_data", (s.t == FM.SIM(FM.RUN(FM.UPD(FM.PARAM, FM.PROC(k))), FM.flag(k))) if isinstance(s, VOpaque) and s.t is not None else False,
                   {"replay": FIT_REPLAY}, assume_after=False)
+        kw = runs[0]
+        me = st.cell(ex.fit["self"]).fields
+        st.oblige("fitness.loop.exposure_arguments", bool(kw.get("pipeline_seed") is me["pipeline_seed"] and kw.get("readout") is ex.fit["readout"] and isinstance(kw.get("outputs"), VNone)
+                                                        and isinstance(kw.get("with_inherited_coords"), VBool) and z3.eq(z_bool(kw["with_inherited_coords"].v), FM.WIC)
+                                                        and isinstance(kw.get("debug"), VBool) and kw["debug"].v is False),
+                  {"replay": FIT_REPLAY}, assume_after=False)
         st.oblige("fitness.loop.own_weight", FM.weight_token(ex, wv) == FM.weight(k), {"replay": FIT_REPLAY, "witness": {"weight_mode": FM.WMODE}}, assume_after=False)
         rec.clear()
     cfg.loops[(fi.qualname, 0)].after_body = after
@@ -486,6 +492,9 @@ def init_unit(u: Unit):
                     want = st.cell(h["trange"]).fields
                     ok = d is not None and {k.v for k, _ in d} == {"y", "x"} and all({"y": want["row"], "x": want["col"]}[k.v] is x for k, x in d)
                 u.oblige(p, f"init.targets_restricted_to_target_range[{tag}]", bool(ok), {}, FIT_REPLAY)
+                ps_ = me.get("pipeline_seed")
+                u.oblige(p, f"init.seed_and_layout_kept[{tag}]", bool(isinstance(ps_, VInt) and z3.eq(z_int(ps_.v), z3.Int("seed")) and isinstance(me.get("_with_inherited_coords"), VBool)
+                                                                      and z3.eq(z_bool(me["_with_inherited_coords"].v), z3.Bool("wic")) and me.get("fitness_func") is h["fitfn"]), {}, FIT_REPLAY)
                 u.oblige(p, f"init.declared_ranges_kept[{tag}]", bool(me.get("sim_fit_range") is h["orange"] and me.get("targ_fit_range") is h["trange"]), {}, FIT_REPLAY)
                 ck = [c for c in calls if c[0] == "check_fit_ranges"]
                 u.oblige(p, f"init.ranges_checked[{tag}]", bool(len(ck) == 1 and ck[0][2].get("target_fit_range") is h["trange"] and ck[0][2].get("out_fit_range") is h["orange"]), {}, FIT_REPLAY)
